@@ -2,6 +2,9 @@
 //! case := `<cfg>m<0|1> <init facts> <rules> <ops>`   (cfg / facts / rules as in c09.rs)
 //!   ops := op,op,…   op := `Q<atom>` query | `A<atom>` query_aggregate("count(?x) WHERE <pattern>")
 //!                        | `S<F>=<val>` facts.set | `D<F>` facts.remove
+//!                        | `K<D|B|I><depth>` engine.set_config (same memoisation / max_solutions, new strategy and depth);
+//!                          queries after a `K` are reported with kind `k` (the cache model is not run on them:
+//!                          set_config rebuilds the goal manager), the fresh engine uses the configuration in force
 //! obs  := one item per Q/A op, `;`-separated:  `<kind q|a>/<key>/<answer>/<fresh>/<hit>`
 //!   key = query text | max_solutions in force | canonical facts before the call (hex of the text)
 //!   answer = provable (Q) or count > 0 … rendered `1|0|e`; fresh = the same from a freshly built engine on
@@ -39,8 +42,9 @@ fn exec(case: &str) -> String {
     let Some((cfg, memo)) = t[0].split_once('m') else { return "bad-case".into() };
     let memo = memo == "1";
     // reuse the c09 parser for configuration, rules and initial facts
-    let Some(base) = parse_case(&format!("{} {} F0.eq.t {}", cfg, t[1], t[2])) else { return "bad-case".into() };
+    let Some(mut base) = parse_case(&format!("{} {} F0.eq.t {}", cfg, t[1], t[2])) else { return "bad-case".into() };
     let mut engine = build_engine(&base, memo);
+    let mut reconfigured = false;
     let mut facts = Facts::new();
     for (k, v) in &base.facts {
         facts.set(FIELDS[*k], v.clone());
@@ -61,6 +65,24 @@ fn exec(case: &str) -> String {
                     return "bad-case".into();
                 }
                 facts.remove(FIELDS[i]);
+            }
+            "K" => {
+                let strategy = match &rest[..1] {
+                    "D" => rust_rule_engine::backward::search::SearchStrategy::DepthFirst,
+                    "B" => rust_rule_engine::backward::search::SearchStrategy::BreadthFirst,
+                    "I" => rust_rule_engine::backward::search::SearchStrategy::Iterative,
+                    _ => return "bad-case".into(),
+                };
+                let Ok(d) = rest[1..].parse::<usize>() else { return "bad-case".into() };
+                base.strategy = strategy;
+                base.max_depth = d;
+                engine.set_config(rust_rule_engine::backward::backward_engine::BackwardConfig {
+                    max_depth: d,
+                    strategy,
+                    enable_memoization: memo,
+                    max_solutions: base.max_solutions,
+                });
+                reconfigured = true;
             }
             "Q" | "A" => {
                 let Some(c) = parse_case(&format!("{} - {} -", cfg, rest)) else { return "bad-case".into() };
@@ -88,7 +110,8 @@ fn exec(case: &str) -> String {
                     }
                 };
                 let key = format!("{}|{}|{}", c.query, ms, before);
-                out.push(format!("{}/{}/{}/{}/{}", if kind == "Q" { "q" } else { "a" }, hex(&key), ans, fresh, if hit { 1 } else { 0 }));
+                let kd = if kind == "A" { "a" } else if reconfigured { "k" } else { "q" };
+                out.push(format!("{}/{}/{}/{}/{}", kd, hex(&key), ans, fresh, if hit { 1 } else { 0 }));
             }
             _ => return "bad-case".into(),
         }
@@ -129,13 +152,41 @@ fn gen(rng: &mut Rng, n: usize, _tier: &str) -> Vec<String> {
                     ops.push(format!("{}{}", if rng.chance(1, 8) { "A" } else { "Q" }, g));
                     q += 1;
                 }
-                5..=6 => ops.push(format!("SF6=n{}", rng.below(2))),
-                7 => ops.push(format!("SF{}={}", rng.below(nf), if rng.chance(1, 2) { "t" } else { "f" })),
+                // the same printed value in another type (Integer 1 / Number 1.0, Boolean true / String "true"):
+                // the verdict changes, a key that forgets the type does not
+                5..=6 => ops.push(format!("SF6={}{}", if rng.chance(1, 3) { "i" } else { "n" }, rng.below(2))),
+                7 => ops.push(format!("SF{}={}", rng.below(nf), *rng.pick(&["t", "f", "t", "f", "strue", "sfalse"]))),
                 8 => ops.push(format!("DF{}", *rng.pick(&[6u64, 5, 0, 1]))),
+                9 if rng.chance(1, 2) => ops.push(format!("K{}{}", *rng.pick(&["D", "B", "I"]), rng.range(1, 4))),
                 _ => ops.push("DF6".to_string()),
             }
         }
         out.push(format!("{} {} {} {}", cfg, init, rules.join(";"), ops.join(",")));
+    }
+    // reconfiguration family: the same query before and after a set_config that changes only the strategy
+    // (breadth-first does not prove premises recursively, so it legitimately disagrees with depth-first on a
+    // chain of rules; a cache that survives the change returns the other strategy's verdict)
+    for _ in 0..n / 10 {
+        let d = rng.range(2, 4);
+        let s1 = *rng.pick(&["B", "D", "I"]);
+        let s2 = *rng.pick(&["B", "D", "I"]);
+        let len = rng.range(1, 3);
+        let mut rules = vec!["F6.eq.n1~F0:=t".to_string()];
+        for i in 0..len {
+            rules.push(format!("F{}.eq.t~F{}:=t", i, if i + 1 == len { 5 } else { i + 1 }));
+        }
+        rng.shuffle(&mut rules);
+        let mut ops = vec!["QF5.eq.t".to_string()];
+        if rng.chance(1, 2) {
+            // put the facts back as they were, so that only the configuration differs
+            for i in 0..len {
+                ops.push(format!("DF{}", i));
+            }
+            ops.push("DF5".to_string());
+        }
+        ops.push(format!("K{}{}", s2, d));
+        ops.push("QF5.eq.t".to_string());
+        out.push(format!("{}{}s1m1 F6=n1 {} {}", s1, d, rules.join(";"), ops.join(",")));
     }
     out
 }
